@@ -259,6 +259,9 @@ pub trait TypedIterable {
     {
         let new_name_len = DNSSector::check_uncompressed_name(name, 0)?;
         let name = &name[..new_name_len];
+        // Owner names must also obey the parser's character policy, or the
+        // packet could not be parsed again.
+        Compress::check_compressed_name(name, 0)?;
         if self.parsed_packet().maybe_compressed {
             let (uncompressed, new_offset) = {
                 let ref_offset = self.offset().ok_or(DSError::VoidRecord)?;
